@@ -5,6 +5,8 @@ from __future__ import annotations
 import z3
 
 from pyvc.harness import contract
+from pyvc.models import Model
+from pyvc.sym import SV, Unsupported
 from pyvc.tensor import T
 
 from .trainer_stubs import Env, val
@@ -183,7 +185,7 @@ for _P in ("C09",):
 
 ASSUMPTIONS = [
     "receptive-field axis / batch axis represented by one arbitrary element (linearity of the reductions); traces are non-negative (amplitude |lr| >= 0, inductive consequence of the C07 recurrences)",
-    "tensor-valued (per-sample) reward signals use argwhere/index along the batch axis: outside the pointwise theory, covered by the bounded stand-in only",
+    "tensor-valued (per-sample) reward signals: argwhere / index / cat / numel along the batch axis are read through the structural group theory at the end of contracts/c09_split.py (a batch reduction is the arbitrary sample's contribution: linear reductions)",
 ]
 
 
@@ -196,6 +198,8 @@ for _cd in list(_REG.get("C10", [])):
         contract("C09", _cd.name, list(_cd.targets), min_obligations=_cd.min_obligations)(_cd.fn)
 
 MUTANTS = [
+    dict(file=T3, func="MSTDP.forward", old="                    state.batchreduce(dneg, 0) if dneg.numel() else None,", new="                    state.batchreduce(dneg, 0) if dpos.numel() else None,", contracts=["MSTDP.forward[tensor_signal]"], name="seed C09e: the depressing part is guarded by the emptiness of the POTENTIATING group"),
+    dict(file=T3, func="MSTDP.forward", old="                signal_neg = torch.argwhere(signal < 0).view(-1)", new="                signal_neg = torch.argwhere(signal >= 0).view(-1)", contracts=["MSTDP.forward[tensor_signal]"], name="tensor signal: negative-reward samples never selected"),
     dict(file="inferno/neural/modeling.py", func="Accumulator.lowerbound", old="            self.bind[1] = lambda x, n, lb=min, k=kwargs: bound(x, n, lb, **k)", new="            self.bind[0] = lambda x, n, lb=min, k=kwargs: bound(x, n, lb, **k)", contracts=["Accumulator.update"], name="seed C09b: the lower bound is installed in the upper-bound slot"),
     dict(file=T3, func="MSTDP.forward", old="                monitors[\"spike_pre\"].view(cell.connection.selector, state.tolerance)\n                if state.delayed and cell.connection.delayedby\n", new="                monitors[\"spike_pre\"].view(cell.connection.selector, state.tolerance)\n                if state.delayed and cell.connection.delayedby is None\n", contracts=["MSTDP.forward[scalar_signal]"], name="seed C08b: MSTDP never uses the delayed presynaptic spike view"),
     dict(file=T2, func="STDP.forward", old="match (state.lr_post >= 0, state.lr_pre >= 0):", new="match (state.lr_post >= 0, self.lr_pre >= 0):", contracts=["STDP.forward"], name="seed C09: routing by trainer default lr_pre"),
@@ -206,3 +210,131 @@ MUTANTS = [
     dict(file=T3, func="MSTDP.forward", old="match (state.lr_post * signal >= 0, state.lr_pre * signal >= 0):", new="match (state.lr_post >= 0, state.lr_pre >= 0):", contracts=["MSTDP.forward[scalar_signal]"]),
     dict(file=T2, func="StableSTDP.forward", old="* abs(state.lr_post)", new="* abs(state.lr_pre)", contracts=["StableSTDP.forward"]),
 ]
+
+
+# ------------------------------------------------------------------------------------------------------------------
+# per-sample (tensor) reward signals.  The real branch splits the batch into the samples with signal >= 0 and < 0
+# (torch.argwhere + indexing), concatenates the selected partial updates into a potentiating and a depressing group
+# and reduces each group over the batch - unless the group is EMPTY, in which case that part is None.
+# Structural theory used here (all other statements run for real on the one-arbitrary-sample tensors):
+#   argwhere(cond).view(-1)      -> Group(cond)            the set of samples satisfying `cond`
+#   x[Group(cond)]               -> Sel(x, cond)           rows of x for those samples
+#   cat((Sel..., Sel...), 0)     -> Bag([...])             their concatenation along the batch axis
+#   Bag.numel()                  -> > 0 iff some member's group is non-empty; the two groups' non-emptiness are the
+#                                   booleans `some_nonnegative_signal`, `some_negative_signal`, each implied by the
+#                                   arbitrary sample lying in that group
+#   state.batchreduce(Bag, 0)    -> the arbitrary sample's contribution to the (linear) reduction: the sum over the
+#                                   members whose group contains it
+class _Group:
+    def __init__(self, cond, flag):
+        self.cond, self.flag = cond, flag
+
+    def sym_getattr(self, interp, name):
+        if name == "view":
+            return lambda *a: self
+        raise Unsupported(f"index group .{name}")
+
+
+class _Sel:
+    def __init__(self, x, g):
+        self.x, self.g = x, g
+
+
+class _Bag:
+    def __init__(self, members):
+        self.members = members
+
+    def sym_getattr(self, interp, name):
+        if name == "numel":
+            return lambda: SV(z3.If(z3.Or([m.g.flag for m in self.members]), z3.IntVal(1), z3.IntVal(0)))
+        raise Unsupported(f"bag .{name}")
+
+
+def _mk_mstdp_tensor(cls, file, elig):
+    for P in ("C09", "C08"):
+        @contract(P, f"{cls}.forward[tensor_signal]", [(file, f"{cls}.forward")], tags=("trainer",), min_obligations=3)
+        def fwd(c, cls=cls, P=P):
+            """per-sample reward: each sample's term is scaled by |signal_b * scale| and routed by sign(lr * signal_b); a group
+            with no sample contributes None, a non-empty group is never dropped"""
+            from pyvc import tensor as tz
+
+            tz.LAYOUT_FREE[0] = True
+            lr_post, lr_pre = c.real("lr_post"), c.real("lr_pre")
+            sig, scale = c.pw("signal_of_this_sample"), c.real("scale")
+            some_pos, some_neg = c.bool("some_nonnegative_signal"), c.bool("some_negative_signal")
+            c.axiom(z3.Implies(sig.f >= 0, some_pos.z))
+            c.axiom(z3.Implies(sig.f < 0, some_neg.z))
+            if elig:
+                zp, zr = c.pw("elig_post"), c.pw("elig_pre")
+                c.require(zp.f >= 0, zr.f >= 0)
+                mons = {"elig_post": dict(peek=zp), "elig_pre": dict(peek=zr)}
+                dpost, dpre = zp.f, zr.f
+                env = Env(c, mons, dict(lr_post=lr_post, lr_pre=lr_pre, delayed=False, tolerance=0.0))
+            else:
+                mons, s = pair_monitors(c)
+                env = Env(c, mons, dict(lr_post=lr_post, lr_pre=lr_pre, delayed=False, tolerance=c.real("tol")))
+                dpost, dpre = b2r(s["spike_post"][0].f) * s["trace_pre"][0].f, b2r(s["spike_pre"][0].f) * s["trace_post"][0].f
+            tn = c.interp.torch_ns._table
+            saved = (tn.get("argwhere"), tn.get("cat"), T.__getitem__)
+
+            def argwhere(x):
+                if not (isinstance(x, T) and x.dtype == "bool" and x.tlen is None):
+                    raise Unsupported("argwhere of a non-boolean / timed tensor")
+                pos = z3.is_true(z3.simplify(x.f == (sig.f >= 0)))
+                neg = z3.is_true(z3.simplify(x.f == (sig.f < 0))) or z3.is_true(z3.simplify(x.f == z3.Not(sig.f >= 0)))
+                if not (pos or neg):
+                    raise Unsupported("argwhere of a condition other than the sign of the signal")
+                return _Group(x.f, some_pos.z if pos else some_neg.z)
+
+            def cat(ts, dim=0):
+                ts = list(ts)
+                if ts and all(isinstance(t, _Sel) for t in ts):
+                    return _Bag(ts)
+                return saved[1](ts, dim)
+
+            def getitem(self_t, k):
+                if isinstance(k, _Group):
+                    return _Sel(self_t, k)
+                return saved[2](self_t, k)
+
+            def reduce_(it, x, dim=0, **kw):
+                if isinstance(x, _Bag):
+                    tot = z3.RealVal(0)
+                    for m in x.members:
+                        tot = tot + z3.If(m.g.cond, tz.coerce(m.x.f, "float"), z3.RealVal(0))
+                    return T(tot, "float", None, None, None)
+                return x
+
+            tn["argwhere"], tn["cat"] = argwhere, cat
+            # `.view(-1, *repeat(1, dpost.ndim - 1))` only re-lays the per-sample scale out for broadcasting: in layout-free
+            # mode view() ignores its shape arguments, so the (symbolic-length) repeat may be empty
+            c.interp.namespaces["itertools"]._table["repeat"] = lambda v, times=None: []
+            T.__getitem__ = getitem
+            env.state.fields["batchreduce"] = Model(reduce_, "batchreduce(contribution of the arbitrary sample)")
+            try:
+                out = c.outcome(c.function(file, f"{cls}.forward"), env.trainer, sig, scale)
+            finally:
+                T.__getitem__ = saved[2]
+                for k_, v in (("argwhere", saved[0]), ("cat", saved[1])):
+                    if v is None:
+                        tn.pop(k_, None)
+                    else:
+                        tn[k_] = v
+            c.expect_return(out)
+            pos, neg = env.captured("weight")
+            mag = sig.f * scale.z
+            mag = z3.If(mag >= 0, mag, -mag)
+            c.ensure("pos_nonnegative", val(pos) >= 0)
+            c.ensure("neg_nonnegative", val(neg) >= 0)
+            c.ensure("this_samples_term_is_signal_scaled_and_routed_by_sign", val(pos) - val(neg) == mag * (z3.If(lr_post.z >= 0, z3.If(sig.f >= 0, dpost, -dpost), z3.If(sig.f >= 0, -dpost, dpost)) + z3.If(lr_pre.z >= 0, z3.If(sig.f >= 0, dpre, -dpre), z3.If(sig.f >= 0, -dpre, dpre))))
+            # which groups feed which part (documented routing), hence when a part may be None
+            pp, pq = lr_post.z >= 0, lr_pre.z >= 0
+            pos_nonempty = z3.Or(z3.If(pp, some_pos.z, some_neg.z), z3.If(pq, some_pos.z, some_neg.z))
+            neg_nonempty = z3.Or(z3.If(pp, some_neg.z, some_pos.z), z3.If(pq, some_neg.z, some_pos.z))
+            c.ensure("potentiating_part_is_none_iff_its_groups_are_empty", z3.BoolVal(pos is None) == z3.Not(pos_nonempty))
+            c.ensure("depressing_part_is_none_iff_its_groups_are_empty", z3.BoolVal(neg is None) == z3.Not(neg_nonempty))
+            c.canary("canary_ignores_signal_sign", z3.And(val(pos) - val(neg) == mag * (sgn_mul(lr_post.z, dpost) + sgn_mul(lr_pre.z, dpre)), sig.f < 0, dpost > 0, lr_post.z > 0, mag > 0))
+
+
+_mk_mstdp_tensor("MSTDP", T3, False)
+_mk_mstdp_tensor("MSTDPET", T3, True)
